@@ -670,6 +670,20 @@ Definition run_maze (x : sx) : sx :=
   | _ => sx_err
   end.
 
+(* ((rows cols (sr sc) choices) (0 maze flag)) -> 1, or -3 when the reported maze is not a
+   grid-shaped 0/1 maze whose passages are all connected to the start *)
+Definition run_chk_maze (x : sx) : sx :=
+  match x with
+  | L [L [A rows; A cols; L [A sr; A sc]; _]; L [A 0; xm; _]] =>
+      match sxZZs xm with
+      | Some m => if maze_shape_b m rows cols && maze_connected_b m rows cols (sr, sc)
+                  then A 1 else A (-3)
+      | None => A (-97)
+      end
+  | _ => A (-97)
+  end.
+
 (* DISPATCH: 1301 => run_place *)
 (* DISPATCH: 1302 => run_chk_C13 *)
 (* DISPATCH: 1303 => run_maze *)
+(* DISPATCH: 1304 => run_chk_maze *)
